@@ -24,8 +24,9 @@ RULES = {
           "the parent's mapping objects",
     "R4": "ExperimentSpace.from_screen passes the screen's mapping objects; sizes derive from the mapping tuple",
     "R5": "a supplied mapping is used and handed back verbatim by both encoders (shared with C01.R5)",
+    "R6": "Screen.__init__ passes the supplied treatment / sample mapping to the encoders as existing_mapping; the mapping properties return what the encoders handed back",
 }
-MIN = {"R1": 12, "R2": 2, "R3": 5, "R4": 3, "R5": 4}
+MIN = {"R1": 12, "R2": 2, "R3": 5, "R4": 3, "R5": 4, "R6": 3}
 TRUSTED = ["python ast semantics", "numpy boolean indexing keeps row order", "call graph: typed resolution + name-CHA "
            "fallback (over-approximate); dynamic class lookup via introspection.get_class is assumed to yield "
            "subclasses of the declared base"]
@@ -272,7 +273,13 @@ def r5(ctx):
                   f"the returned mapping columns {[U(e)[:40] for e in elts[1:]]} are not the columns of the id table `{table}`")
 
 
-RULE_FUNCS = [r1, r2, r3, r4, r5]
+def r6(ctx):
+    """a screen built from a frozen universe keeps it only if the constructor hands the supplied mappings to the encoders (C02.R4 run here)"""
+    from . import C02
+    ctx.borrow(C02.r4, "R6")
+
+
+RULE_FUNCS = [r1, r2, r3, r4, r5, r6]
 
 
 def _drop_kw(fn_name, kw):
